@@ -21,6 +21,10 @@ gives each method the persistent values / events it gets when run alone.
 import json
 import os
 import random
+import shutil
+import subprocess
+import sys
+import tempfile
 
 from harness import common, lang
 
@@ -269,7 +273,7 @@ def gen_case(rng):
     if rng.random() < 0.04:
         nxt2 = "other"
     d1 = {"init": "ph", "phases": [{"key": "ph", "name": "ph", "next": nxt1, "stmts": ph1, "container": container}]}
-    d2 = {"init": "ph", "phases": [{"key": "ph", "name": "ph", "next": nxt2, "stmts": ph2, "container": container}]}
+    d2 = {"init": "ph", "phases": [{"key": "ph", "name": rng.choice(["ph"] * 9 + ["ph_b"]), "next": nxt2, "stmts": ph2, "container": container}]}
     if rng.random() < 0.04:
         d2["init"] = "q"
     # further phases: only in one DAG, or in both
@@ -284,7 +288,7 @@ def gen_case(rng):
         qa = MethodGen(rng, 1, "q", disciplined).build(rng.choice([1, 2, 3]))
         qb = MethodGen(rng, 2, "q", disciplined).build(rng.choice([1, 2, 3]))
         d1["phases"].append({"key": "q", "name": "q", "next": "ph", "stmts": qa, "container": "frozenset"})
-        d2["phases"].append({"key": "q", "name": "q", "next": "ph", "stmts": qb, "container": "list"})
+        d2["phases"].append({"key": "q", "name": rng.choice(["q", "q", "q_b"]), "next": "ph", "stmts": qb, "container": "list"})
     # malformed inputs
     m = rng.random()
     if m < 0.03 and ph2:
@@ -650,9 +654,7 @@ def oracle_phase(key, A, B, F, pred, store, dags):
         for x in sorted(namesA & namesB2):
             if want(x):
                 fails.append({"kind": "temporary_shared", "phase": key, "name": x})
-    if fails:
-        return fails
-    # run equivalence
+    # run equivalence (decided on the inputs and the real runs only, whatever the structural findings)
     dag1, dag2, fused = dags
     wrA = set().union(set(), *[stmt_written(s) for s in A])
     wrB = set().union(set(), *[stmt_written(s) for s in B])
@@ -667,11 +669,11 @@ def oracle_phase(key, A, B, F, pred, store, dags):
         "functions_are_not_variables": not (funcs & (usedA | usedB)),
     }
     if not all(pre.values()):
-        return [{"kind": "_skipped", "pre": pre}]
+        return fails + [{"kind": "_skipped", "pre": pre}]
     rA, _ = run_phase(dag1, key, store)
     rB, _ = run_phase(dag2, key, store)
     if rA["status"] != ["run"] or rB["status"] != ["run"]:
-        return [{"kind": "_skipped", "pre": "a separate run does not complete"}]
+        return fails + [{"kind": "_skipped", "pre": "a separate run does not complete"}]
     rF, _ = run_phase(fused, key, store)
     bad = None
     if rF["status"] != ["run"]:
@@ -683,13 +685,12 @@ def oracle_phase(key, A, B, F, pred, store, dags):
                 bad = "persistent variable %s: fused %r, alone %r" % (x, rF["store"].get(x), exp)
                 break
         if bad is None:
-            evA = [e for e in rF["events"] if e in rA["events"]]
             if sorted(map(json.dumps, rF["events"])) != sorted(map(json.dumps, rA["events"] + rB["events"])):
                 bad = "events differ: fused %r, alone %r + %r" % (rF["events"], rA["events"], rB["events"])
-            del evA
     if bad:
-        return [{"kind": "run_differs", "phase": key, "why": bad, "alone_1": rA, "alone_2": rB, "fused": rF}]
-    return [{"kind": "_ran"}]
+        return fails + [{"kind": "run_differs", "phase": key, "why": bad, "alone_1": rA, "alone_2": rB,
+                         "fused": rF}]
+    return fails + [{"kind": "_ran"}]
 
 
 def oracle(case, rec, objs):
@@ -862,7 +863,7 @@ def describe(objs):
 def main(tier):
     rep = common.Reporter(PID, tier)
     seed = common.seed()
-    ps = common.proof_stage(rep, PID, gen=["lang", "c16"])
+    ps = common.proof_stage(rep, PID, gen=["lang", "c16"], extra_targets=["proofs/FuseWitnessProofs.vo"])
     rng = random.Random(seed * 1000003 + 16)
     ncase = 350 if tier == "quick" else 6000
 
@@ -872,9 +873,9 @@ def main(tier):
         cases.append(gen_case(rng))
 
     failing = {}
-    terms, term_idx = [], []
+    terms, term_idx, term_rec = [], [], []
     stats = {"fused_ok": 0, "ValueError": 0, "KeyError": 0, "other_exception": 0, "run_oracle_ran": 0,
-             "run_oracle_skipped": 0, "phases_fused": 0, "renamed_names": 0, "model_runs": 0}
+             "run_oracle_skipped": 0, "phases_fused": 0, "model_runs": 0}
     sizes = {}
     recs = []
     for ci, case in enumerate(cases):
@@ -901,6 +902,40 @@ def main(tier):
         if o != "other":
             terms.append(case_term(case, rec, runs))
             term_idx.append(ci)
+            term_rec.append(rec)
+
+    # the same cases under other hash seeds (other iteration orders of `id_a & id_b` and of the phase names):
+    # real run + oracle in a subprocess, the orders it captured go to the model
+    hs_list = [1, 2] if tier == "quick" else [1, 2, 3, 5, 8]
+    pick = [ci for ci, r in enumerate(recs) if r["out"][0] == "ok" and any(len(v) >= 2 for v in r["clashes"].values())]
+    pick = pick[:60 if tier == "quick" else 500]
+    orders_seen = set()
+    tmp = tempfile.mkdtemp()
+    try:
+        with open(os.path.join(tmp, "in.json"), "w") as f:
+            json.dump([cases[ci] for ci in pick], f)
+        for hs in hs_list:
+            env = dict(os.environ, PYTHONHASHSEED=str(hs))
+            pr = subprocess.run([sys.executable, "-m", "harness.c16", os.path.join(tmp, "in.json"),
+                                 os.path.join(tmp, "out.json")], env=env, capture_output=True, text=True,
+                                cwd=common.VERIF)
+            if pr.returncode != 0:
+                raise RuntimeError("hash-seed batch failed: " + pr.stderr[-2000:])
+            for ci, o in zip(pick, json.load(open(os.path.join(tmp, "out.json")))):
+                orders_seen.add((ci, json.dumps(o["rec"]["clashes"], sort_keys=True)))
+                for fl in o["fails"]:
+                    if fl["kind"] not in failing or size(cases[ci]) < size(failing[fl["kind"]][0]):
+                        failing[fl["kind"]] = (cases[ci], fl)
+                if o["rec"]["out"][0] != "other":
+                    terms.append(case_term(cases[ci], o["rec"], []))
+                    term_idx.append(ci)
+                    term_rec.append(o["rec"])
+    finally:
+        shutil.rmtree(tmp, ignore_errors=True)
+    for ci in pick:
+        orders_seen.add((ci, json.dumps(recs[ci]["clashes"], sort_keys=True)))
+    stats["hash_seed_variants"] = len(pick) * len(hs_list)
+    stats["distinct_clash_orders_over_seeds"] = len(orders_seen)
 
     for key, (case, f) in sorted(failing.items()):
         small = shrink(case, key)
@@ -915,6 +950,7 @@ def main(tier):
     if os.path.exists(os.path.join(common.COQ, "model", "FuseCheck.vo")) and \
             os.path.exists(os.path.join(common.COQ, "gen", "GenC16.vo")):
         mism, n_eval, errors = common.eval_cases(PID, HEADER, terms, "chk", shard=25)
+        mism_terms = list(mism)
         mism = [term_idx[i] for i in mism]
     else:
         errors = ["model not built"]
@@ -924,11 +960,11 @@ def main(tier):
                           "no failing input found by the implementation-level oracle",
                   "proof_stage": ps, "coq_errors": errors[:3], "n_disagreements": len(mism)}
         if mism:
-            i = mism[0]
-            detail["first_disagreeing_case"] = dict(cases[i], real=recs[i])
+            i, rec_i = mism[0], term_rec[mism_terms[0]]
+            detail["first_disagreeing_case"] = dict(cases[i], real=rec_i)
             detail["model_result"] = common.eval_term(HEADER, "model_fuse lang_lhs_sub_reads lang_loop_bound_reads "
                                                       "is_state fuse_sw_thread fuse_sw_pred fuse_sw_guard "
-                                                      "fuse_sw_loopv %s" % case_term(cases[i], recs[i], []))[-3000:]
+                                                      "fuse_sw_loopv %s" % case_term(cases[i], rec_i, []))[-3000:]
         detail["broken"] = ("theorem file %s" % ps.get("theorem")) if not ps["ok"] else \
             "correspondence dagrt.transform.fuse_two_dags ~ Dagrt.Fuse.fuse_two_dags / fused run ~ Sched.run_ids"
         rep.violation(detail, no_input=True)
@@ -972,3 +1008,17 @@ def replay(path):
     real = [f for f in fails if not f["kind"].startswith("_")]
     print(json.dumps({"real": describe(objs), "out": rec["out"], "oracle": real}, indent=1, default=str))
     return 1 if real else 0
+
+
+def batch(path_in, path_out):
+    """evaluate cases in this process (started with another PYTHONHASHSEED); see main"""
+    out = []
+    for case in json.load(open(path_in)):
+        rec, _objs, fails = evaluate(case)
+        out.append({"rec": rec, "fails": [f for f in fails if not f["kind"].startswith("_")]})
+    with open(path_out, "w") as f:
+        json.dump(out, f, default=str)
+
+
+if __name__ == "__main__":
+    batch(sys.argv[1], sys.argv[2])
